@@ -768,10 +768,6 @@ func testifyContracts(p *packages.Package, v instVariant) (string, []structFact)
 					fw = append(fw, "$fn == run")
 					for k := 0; k < nfix; k++ {
 						req = append(req, fmt.Sprintf("argfor(args[%d], run, %d)", k, k))
-						if isInterfaceType(genSig.Params().At(k).Type()) {
-							// finding D12 (no nil guard for interface-typed parameters) is assumed away here, not claimed
-							req = append(req, fmt.Sprintf("args[%d] != nil", k))
-						}
 						fw = append(fw, fmt.Sprintf("box($%d) == args[%d]", k, k))
 					}
 					fmt.Fprintf(&b, "// %s.%s, Run: the callback receives exactly the arguments of the call, position by position, once.\n", n, name)
@@ -846,7 +842,6 @@ type badShape struct {
 var badShapes = []badShape{
 	{"param_named_mock.go", "matryer", "{skip-ensure: true}", "a parameter named mock collides with the receiver of the matryer template"},
 	{"method_named_mock.go", "testify", "{unroll-variadic: true}", "a method named Mock collides with the embedded testify mock.Mock field"},
-	{"param_named_returnfunc.go", "testify", "{unroll-variadic: true}", "a parameter named returnFunc is shadowed by a local of the testify template"},
 	{"comparable_constraint.go", "matryer", "{skip-ensure: false}", "the matryer ensure line instantiates the mock with the constraint comparable itself"},
 }
 
